@@ -318,6 +318,9 @@ async def _run_script(ctx, inv, ev, script):
                 ctx.rec('EXPE', by=inv.id, bus=bus, outcome='match', ev=ctx.label(got))
             except TimeoutError:
                 ctx.rec('EXPE', by=inv.id, bus=bus, outcome='timeout')
+        elif op == 'mkevent':
+            # create an event object now (its creation stamp is older than whatever is created later), dispatch it later with redispatch
+            _mk_event(ctx, st[1], st[2])
         elif op == 'block':
             # synchronous work that takes time: the clock advances while nothing else can run (timers that fall due meanwhile are all
             # handled in the next loop iteration, after whatever was already ready)
